@@ -23,7 +23,7 @@ CFG = gen.cfg_with(probe_w=4, inner_probe=0.45, max_root=5, max_funcs=5, fail_af
 
 
 def program_strategy(cfg, cache):
-    return gen.mixed_program(cfg, cache)
+    return gen.mixed_program(cfg, cache, patterns=2, general=3)
 
 
 def drive(draw, h, cfg):
